@@ -255,3 +255,12 @@ def r5(c):
     wc = [cs for cs in p.calls() if cs.callee.endswith('::parse') and 'WildcardIPv4' in cs.gargs]
     okp = len(ip) == 1 and len(wc) == 1 and q.dominated_by_any(p, q.outcomes(p, ip[0]).get('Err', []), wc[0].node) and bool(q.outcomes(p, wc[0]).get('success'))
     c.ob('parse_address_filter', okp, 'a filter string is an IP address, else a (checked) wildcard', '', loc_of(p))
+    # what the parser may produce: AnyOf{ip} or WildcardIpv4(parsed) - never the catch-all (`*.*.*.*` is an IPv4 pattern: it does not admit IPv6 peers)
+    made = sorted({s_['rv']['variant'] for _, s_ in p.aggregates(FA)})
+    c.ob('parse_address_filter/variants', made == ['AnyOf', 'WildcardIpv4'], 'parse_address_filter builds AnyOf / WildcardIpv4 only', str(made), loc_of(p))
+    anyc = sorted({P.logical_name(bb) for bb, _, _ in P.constructors(FA, 'Any', crate='rodbus_ffi')})
+    c.ob('any/constructors', anyc == ['rodbus_ffi::server::address_filter_any'], 'the catch-all filter object is created only by address_filter_any()', str(anyc))
+    wcs = [(i, s_) for i, s_ in p.aggregates(FA) if s_['rv']['variant'] == 'WildcardIpv4']
+    if len(wcs) == 1 and len(wc) == 1:
+        v = q.sem(p, wcs[0][1]['rv']['a'][0])
+        c.ob('parse_address_filter/wildcard-payload', v.kind == 'call' and v.cs is wc[0] and q.has_success(v.proj) or (v.kind == 'call' and v.cs is wc[0] and v.checked), 'the wildcard stored is the one parsed', repr(v), loc_of(p))
